@@ -7,6 +7,10 @@ import TempestVerif.Gen.Tables
        particles are tags 0..N-1 in every array; the trimming / resampling index vectors are inputs
        → names=<returned array names> x=<tags> l=<tags> b=<tags> lw=<tags> nw=<number of weights>  |  error
    term.F tol=<f> beta=<f> ess=<f> ntotal=<f>   → 1 (continue) / 0 (stop)
+   term.H tol=<f> beta=<f> logw=<floats> ntotal=<f>   (whole `_not_termination`, ESS computed from the log-weights)
+       → <1|0> <ess as float | ->          (`-` : empty history)
+   post.w0 logw=<floats>   → the untrimmed posterior weights `exp(logw-max)/sum` as floats  |  none
+   post.unif n=<nat>       → the entry `1/n` of `np.ones(n)/n` as float
 -/
 namespace Drv.C12
 open Drv Model.Posterior Model.Run
@@ -40,6 +44,23 @@ def handle (cmd : String) (args : List (String × String)) : Option String :=
           (getArg args "ess").bind parseFloat?, (getArg args "ntotal").bind parseFloat? with
     | some t, some b, some e, some n => some (showBool (notTerm t b e n))
     | _, _, _, _ => some "bad-op"
+  | "term.H" =>
+    match (getArg args "tol").bind parseFloat?, (getArg args "beta").bind parseFloat?,
+          (getArg args "logw").bind (parseList? parseFloat?), (getArg args "ntotal").bind parseFloat? with
+    | some t, some b, some lw, some n =>
+      let e : String := match lw with
+        | [] => "-"
+        | x :: xs => showFloat (Model.Ess.ess (expShift x xs))
+      some s!"{showBool (notTermination t b lw n)} {e}"
+    | _, _, _, _ => some "bad-op"
+  | "post.w0" =>
+    match (getArg args "logw").bind (parseList? parseFloat?) with
+    | some lw => some (match weights0 lw with | none => "none" | some w => showList showFloat w)
+    | none => some "bad-op"
+  | "post.unif" =>
+    match (getArg args "n").bind String.toNat? with
+    | some n => some (match (uniformW n : List Float) with | [] => "-" | x :: _ => showFloat x)
+    | none => some "bad-op"
   | _ => none
 
 end Drv.C12
